@@ -200,14 +200,20 @@ def run(prog, world, sem, rep):
         # inside the picker: planner + pairing
         if claim_call is not None:
             pb = world.callee_body(claim_call)
-            pv = [v for v in vs_r if v.body.path == pb.path][0]
+            if claim_call.info.endswith(PLANNER):
+                # the planner is called by the roll-over itself (no separate picker function)
+                pb, pv = rb, rv
+                claim_exprs = [rv.resolve(a) for a in claim_call.args[:1]]
+            else:
+                pv = [v for v in vs_r if v.body.path == pb.path][0]
+                claim_exprs = list(pv.args or [])
             psub = subtree(vs_r, pv)
             ud = [(v, bb, e) for (v, bb, i, e) in message_effects(sem, psub) if e.info[0].endswith("StakingMsg") and e.info[1] == "Undelegate"]
             okp = False
             ee = None
             det = "Undelegate constructions under %s: %d" % (pb.path, len(ud))
             if len(ud) == 1:
-                okp, det, ee, delegator = undelegate_pairing(prog, world, sem, pv, ud[0])
+                okp, det, ee, delegator = undelegate_pairing(prog, world, sem, pv, ud[0], claim_exprs)
                 if delegator is not None:
                     rep.ob("C02.c", "undelegation validators are the hub's own delegations", sem.label(delegator) == ("self",), "delegator %s" % (sem.label(delegator),), where(pb))
             rep.ob("C02.c", "Undelegate pairs planner output i with delegation i", okp, det, where(pb))
@@ -323,7 +329,7 @@ def no_entry_skipped(prog, world, sem, v, bb, pos):
 PLANNER = "common::calculate_undelegations"
 
 
-def undelegate_pairing(prog, world, sem, pv, site):
+def undelegate_pairing(prog, world, sem, pv, site, claim_exprs=None):
     """The Undelegate message built under the picker `pv` pairs planner output i with entry i of the very validator list the planner was
     given, for every entry with a non-zero amount - in any of the repo's idioms (index loop, enumerate, zip; `for` loop or closure of
     an iterator adaptor; see krpsa.iters).  Returns (ok, detail, skipping reasons, delegator expression of the own-delegations query)."""
@@ -342,7 +348,8 @@ def undelegate_pairing(prog, world, sem, pv, site):
     pl = find(world.norm(na[0], 0, False), lambda y: y.op == "call" and y.info.endswith(PLANNER))
     planner = pl[0] if pl else None
     # the planner distributes the claim handed to the picker (its parameter, here in the entry point's terms) ...
-    c3 = planner is not None and any(a is not None and world.norm(pv.resolve(planner.args[0]), 0, False) == world.norm(a, 0, False) for a in (pv.args or []))
+    c3 = planner is not None and any(a is not None and world.norm(pv.resolve(planner.args[0]), 0, False) == world.norm(a, 0, False)
+                                     for a in (claim_exprs if claim_exprs is not None else (pv.args or [])))
     # ... over the very list whose entries receive the amounts, which is the hub's own delegation list
     c6 = planner is not None and world.norm(strip_coll(world, pv.resolve(planner.args[1])), 0, False) == world.norm(strip_coll(world, nv[0]), 0, False)
     q = find(world.norm(nv[0], 0, False), lambda y: y.op == "call" and y.info.endswith("query_all_delegations"))
